@@ -11,6 +11,7 @@ import (
 	"sync"
 	"time"
 
+	"github.com/sheerbytes/sheerbytes/internal/app"
 	"github.com/sheerbytes/sheerbytes/internal/transfer"
 	"github.com/sheerbytes/sheerbytes/pkg/manifest"
 	"github.com/sheerbytes/sheerbytes/verifharness/internal/vnet"
@@ -53,6 +54,18 @@ func XferSpecial(args []string) {
 	if on("rechunk") {
 		specialRechunk(res, outcomes, base, *seed, mine)
 	}
+	if on("dupflip") {
+		specialDupFlip(res, outcomes, base, *seed, mine)
+	}
+	if on("lateinfo") {
+		specialLateInfo(res, outcomes, base, *seed, mine)
+	}
+	if on("longlag") {
+		specialLongLag(res, outcomes, base, *seed, mine)
+	}
+	if on("multiselect") {
+		specialMultiSelect(res, outcomes, base, *seed, mine)
+	}
 	if on("symlink") {
 		specialSymlink(res, outcomes, base, *seed, mine)
 	}
@@ -73,7 +86,9 @@ func XferSpecial(args []string) {
 		}
 	}
 	// (1) prepopulated output directories
-	tree := []xfer.FileSpec{{Rel: "a.bin", Size: 100}, {Rel: "sub/b.bin", Size: 64}, {Rel: "sub/empty.dat", Size: 0}, {Rel: "c.txt", Size: 5000}, {Rel: "sub/deep/d.bin", Size: 33}}
+	// (z.img / sub/z2.img hold runs of zeros that cover whole chunks: the holes of a disk image)
+	tree := []xfer.FileSpec{{Rel: "a.bin", Size: 100}, {Rel: "sub/b.bin", Size: 64}, {Rel: "sub/empty.dat", Size: 0}, {Rel: "c.txt", Size: 5000}, {Rel: "sub/deep/d.bin", Size: 33},
+		{Rel: "z.img", Size: 256, Zero: [][2]int64{{64, 128}, {192, 256}}}, {Rel: "sub/z2.img", Size: 3 * 4096, Zero: [][2]int64{{4096, 8192}}}}
 	for _, chunk := range []uint32{32, 64, 4096} {
 		if !on("prepop") {
 			break
@@ -96,7 +111,8 @@ func XferSpecial(args []string) {
 						root = filepath.Join(out, "tree")
 					}
 					// stale content of an earlier, different download
-					stale := []xfer.FileSpec{{Rel: "a.bin", Size: 320}, {Rel: "sub/b.bin", Size: 64 + 8}, {Rel: "sub/empty.dat", Size: 26}, {Rel: "c.txt", Size: 5000}, {Rel: "sub/deep/d.bin", Size: 1}}
+					stale := []xfer.FileSpec{{Rel: "a.bin", Size: 320}, {Rel: "sub/b.bin", Size: 64 + 8}, {Rel: "sub/empty.dat", Size: 26}, {Rel: "c.txt", Size: 5000}, {Rel: "sub/deep/d.bin", Size: 1},
+						{Rel: "z.img", Size: []int64{256, 300}[n%2]}, {Rel: "sub/z2.img", Size: 3 * 4096}}
 					if err := xfer.MakeTree(root, stale, *seed+1000+int64(n)); err != nil {
 						panic(err)
 					}
@@ -116,6 +132,12 @@ func XferSpecial(args []string) {
 						outcomes["prepopulated: identical"]++
 					default:
 						outcomes["prepopulated: failed loudly"]++
+					}
+					if resume && err == nil {
+						// whatever metadata is on disk afterwards marks only chunks that are in the file (C05)
+						if m, _, serr := xfer.Scan(src, false); serr == nil {
+							inspectDisk(res, src, root, m, chunk, replay)
+						}
 					}
 				}
 			}
@@ -622,5 +644,282 @@ func specialLarge(res *Result, outcomes map[string]int, dir string, cs uint32, m
 	}
 	if mode == "largetorn" && kind == "differs" {
 		res.AddViolation(map[string]any{"property": "C06", "kind": "damaged_last_complete_chunk_not_repaired", "tree": "file-beyond-4GiB"}, detail)
+	}
+}
+
+// specialMultiSelect (C01): several selections with the same base name, given in an order that differs
+// from their lexical order (thru host zeta/photos alpha/photos), same relative files of equal sizes in
+// each. The manifest comes from the real ScanPaths, the sender opens files through the application's
+// real path resolver; what arrives under "<k>_<name>/" must be the content of the k-th selection.
+func specialMultiSelect(res *Result, outcomes map[string]int, base string, seed int64, mine func() bool) {
+	orders := [][]string{{"zeta/photos", "alpha/photos"}, {"alpha/photos", "zeta/photos"}, {"m/photos", "zeta/photos", "alpha/photos"}, {"zeta/photos", "solo", "alpha/photos"}}
+	for oi, order := range orders {
+		for _, noRoot := range []bool{false, true} {
+			if !mine() {
+				continue
+			}
+			dir := filepath.Join(base, fmt.Sprintf("ms%d_%v", oi, noRoot))
+			var paths []string
+			for si, rel := range order {
+				p := filepath.Join(dir, "src", filepath.FromSlash(rel))
+				if err := xfer.MakeTree(p, []xfer.FileSpec{{Rel: "img1.raw", Size: 300}, {Rel: "sub/img2.raw", Size: 90}, {Rel: "empty", Size: 0}}, seed+int64(100*oi+si)); err != nil {
+					panic(err)
+				}
+				paths = append(paths, p)
+			}
+			m, err := manifest.ScanPaths(paths)
+			if err != nil {
+				res.AddDrift(map[string]any{"why": "ScanPaths: " + err.Error()})
+				continue
+			}
+			resolve, err := app.VerifBuildPathResolver(paths)
+			if err != nil {
+				res.AddDrift(map[string]any{"why": "resolver: " + err.Error()})
+				continue
+			}
+			out := filepath.Join(dir, "out")
+			p := vnet.NewPair(vnet.Options{Mock: true})
+			ctx, cancel := context.WithTimeout(context.Background(), 20*time.Second)
+			recvErr := make(chan error, 1)
+			go func() {
+				_, err := transfer.RecvManifestMultiStream(ctx, p.End(vnet.B), out, transfer.Options{ParallelFiles: 2, Resume: true, NoRootDir: noRoot, HashAlg: "crc32c"})
+				recvErr <- err
+			}()
+			sendErr := transfer.SendManifestMultiStream(ctx, p.End(vnet.A), ".", m, transfer.Options{ChunkSize: 64, ParallelFiles: 2, Resume: true, NoRootDir: noRoot, ResolveFilePath: resolve})
+			rerr := <-recvErr
+			cancel()
+			p.Shutdown()
+			res.Behaviours++
+			res.Distinct++
+			replay := map[string]any{"selections_in_order": order, "noRootDir": noRoot, "send_err": errText(sendErr), "recv_err": errText(rerr)}
+			if sendErr != nil || rerr != nil {
+				outcomes["several selections: failed"]++
+				res.AddViolation(map[string]any{"property": "C03", "kind": "healthy_transfer_failed", "tree": "several-selections-same-base-name"}, replay)
+				continue
+			}
+			root := out
+			if !noRoot {
+				root = filepath.Join(out, m.Root)
+			}
+			// how many selections share each base name, and the ordinal of each selection among them
+			count := map[string]int{}
+			for _, rel := range order {
+				count[filepath.Base(rel)]++
+			}
+			seen := map[string]int{}
+			var bad []string
+			for si, rel := range order {
+				b := filepath.Base(rel)
+				seen[b]++
+				top := b
+				if count[b] > 1 {
+					top = fmt.Sprintf("%d_%s", seen[b], b)
+				}
+				for _, f := range []string{"img1.raw", "sub/img2.raw", "empty"} {
+					want, _ := os.ReadFile(filepath.Join(paths[si], filepath.FromSlash(f)))
+					got, gerr := os.ReadFile(filepath.Join(root, top, filepath.FromSlash(f)))
+					if gerr != nil || !bytes.Equal(want, got) {
+						bad = append(bad, top+"/"+f)
+					}
+				}
+			}
+			if len(bad) > 0 {
+				replay["files_that_are_not_their_selections_content"] = bad
+				outcomes["several selections: differs"]++
+				res.AddViolation(map[string]any{"property": "C01", "kind": "both_succeed_tree_differs", "tree": "several-selections-same-base-name"}, replay)
+			} else {
+				outcomes["several selections: identical"]++
+			}
+		}
+	}
+}
+
+
+// specialLongLag (C03): the data streams lag far behind the control stream - every FileEnd (and End) is
+// handled seconds before the chunk frames of the file arrive (a slow link with multi-MiB chunks queued).
+// Nothing is lost, so the transfer has to complete.
+func specialLongLag(res *Result, outcomes map[string]int, base string, seed int64, mine func() bool) {
+	for i, lag := range []time.Duration{6500 * time.Millisecond} {
+		if !mine() {
+			continue
+		}
+		dir := filepath.Join(base, fmt.Sprintf("lag%d", i))
+		src := filepath.Join(dir, "src", "tree")
+		if err := xfer.MakeTree(src, []xfer.FileSpec{{Rel: "a.bin", Size: 300}, {Rel: "d/b.bin", Size: 70}, {Rel: "d/empty", Size: 0}}, seed); err != nil {
+			panic(err)
+		}
+		cfg := xfer.Config{Transport: "vlag", DataLag: lag, Conns: 1, Streams: 2, ChunkSize: 64, Resume: i%2 == 1, Seed: seed, Watchdog: lag + 6*time.Second}
+		o, err := xfer.Run(cfg, src, filepath.Join(dir, "out"))
+		res.Behaviours++
+		res.Distinct++
+		judgeHealthy(res, outcomes, fmt.Sprintf("data %v behind control", lag), "data-streams-seconds-behind-the-control-stream", cfg, o, err)
+	}
+}
+
+
+// specialLateInfo (C04 / C06): a long round trip - the receiver's resume information reaches the sender
+// only after the sender's 300 ms grace period, while the sender's data writes are slow (a thin uplink).
+//   C04  the information still counts when it comes: the sender must not go on to send the finished
+//        chunks wholesale (what it sent before the information arrived is the price of the grace period)
+//   C06  the highest recorded chunk is torn on disk: it must still be detected by hash and repaired,
+//        also when the sender's statistics callback (status line, log) is slow
+func specialLateInfo(res *Result, outcomes map[string]int, base string, seed int64, mine func() bool) {
+	const chunk, total, have = 64, 60, 54
+	for _, torn := range []bool{false, true} {
+		for _, streams := range []int{1, 2} {
+			if !mine() {
+				continue
+			}
+			dir := filepath.Join(base, fmt.Sprintf("late_%v_%d", torn, streams))
+			src := filepath.Join(dir, "src", "tree")
+			size := int64(total*chunk - 11)
+			if err := xfer.MakeTree(src, []xfer.FileSpec{{Rel: "f.bin", Size: size}}, seed+int64(streams)); err != nil {
+				panic(err)
+			}
+			out := filepath.Join(dir, "out")
+			os.MkdirAll(out, 0o755)
+			m, _, _ := xfer.Scan(src, false)
+			var item manifest.FileItem
+			for _, it := range m.Items {
+				if it.RelPath == "f.bin" {
+					item = it
+				}
+			}
+			srcBytes, _ := os.ReadFile(filepath.Join(src, "f.bin"))
+			data := make([]byte, size)
+			copy(data[:have*chunk], srcBytes[:have*chunk])
+			if torn {
+				for i := (have-1)*chunk + chunk/2; i < have*chunk; i++ {
+					data[i] = 0xEE
+				}
+			}
+			os.WriteFile(filepath.Join(out, "f.bin"), data, 0o644)
+			sc, err := transfer.CreateSidecar(transfer.SidecarPath(out, "", transfer.VerifSidecarID(item)), item.ID, item.Size, chunk)
+			if err != nil {
+				res.AddDrift(map[string]any{"why": err.Error()})
+				continue
+			}
+			for k := uint32(0); k < have; k++ {
+				sc.MarkComplete(k)
+			}
+			sc.Flush()
+			key := transfer.VerifFileKey(item)
+			var fmu sync.Mutex
+			framed := map[int]int{}
+			extraHook = func(name string, a, b uint64, s string) {
+				if name == "send.chunk.framed" && a == key {
+					fmu.Lock()
+					framed[int(b)]++
+					fmu.Unlock()
+				}
+			}
+			cfg := xfer.Config{Transport: "vquic", Conns: 1, Streams: streams, ChunkSize: chunk, Resume: true, NoRootDir: true, Seed: seed,
+				CtlBackLag: 450 * time.Millisecond, DataWriteDelay: 5 * time.Millisecond, Watchdog: 10 * time.Second}
+			if torn {
+				cfg.ResumeStatsDelay = 300 * time.Millisecond
+			}
+			o, err := xfer.Run(cfg, src, out)
+			extraHook = nil
+			res.Behaviours++
+			res.Distinct++
+			fmu.Lock()
+			again := 0
+			for c := range framed {
+				if c < have-1 {
+					again++
+				}
+			}
+			fmu.Unlock()
+			replay := map[string]any{"scenario": "resume information arrives after the grace period", "chunks": total, "recorded_complete": have, "highest_recorded_chunk_torn": torn,
+				"finished_chunks_sent_again": again, "cfg": cfg, "outcome": o}
+			label := fmt.Sprintf("late resume information (torn=%v)", torn)
+			switch {
+			case err != nil:
+				res.AddDrift(map[string]any{"why": err.Error()})
+			case o.Hung:
+				outcomes[label+": hung"]++
+				res.AddViolation(map[string]any{"property": "C03", "kind": "hang", "tree": "late-resume-information"}, replay)
+			case !(o.SendOK && o.RecvOK):
+				outcomes[label+": failed"]++
+				res.AddViolation(map[string]any{"property": "C03", "kind": "healthy_transfer_failed", "tree": "late-resume-information", "sendErr": trunc(o.SendErr), "recvErr": trunc(o.RecvErr)}, replay)
+			case !o.TreeEqual && torn:
+				outcomes[label+": torn chunk not repaired"]++
+				res.AddViolation(map[string]any{"property": "C06", "kind": "damaged_last_complete_chunk_not_repaired", "tree": "late-resume-information"}, replay)
+			case !o.TreeEqual:
+				outcomes[label+": differs"]++
+				res.AddViolation(map[string]any{"property": "C01", "kind": "both_succeed_tree_differs", "tree": "late-resume-information"}, replay)
+			case !torn && again*10 >= (have-1)*9:
+				outcomes[label+": everything sent again"]++
+				res.AddViolation(map[string]any{"property": "C04", "kind": "resume_information_ignored_finished_work_sent_again", "tree": "late-resume-information"}, replay)
+			default:
+				outcomes[fmt.Sprintf("%s: ok (%d of %d finished chunks sent before the information came)", label, again, have-1)]++
+			}
+		}
+	}
+}
+
+
+// specialDupFlip (C05): a resumed transfer whose verification tail re-sends chunks the metadata already
+// marks; the payload of such a duplicate is damaged in flight. Whatever the receiver does with the frame,
+// the metadata on disk afterwards may only mark chunks whose bytes in the file are the source's.
+func specialDupFlip(res *Result, outcomes map[string]int, base string, seed int64, mine func() bool) {
+	const chunk, total, have = 64, 8, 5
+	for _, tail := range []uint32{1, 2, 5} {
+		for frame := 0; frame < 2; frame++ {
+			if !mine() {
+				continue
+			}
+			dir := filepath.Join(base, fmt.Sprintf("dup_%d_%d", tail, frame))
+			src := filepath.Join(dir, "src", "tree")
+			size := int64(total*chunk - 5)
+			if err := xfer.MakeTree(src, []xfer.FileSpec{{Rel: "f.bin", Size: size}}, seed+int64(tail)); err != nil {
+				panic(err)
+			}
+			out := filepath.Join(dir, "out")
+			os.MkdirAll(out, 0o755)
+			m, _, _ := xfer.Scan(src, false)
+			var item manifest.FileItem
+			for _, it := range m.Items {
+				if it.RelPath == "f.bin" {
+					item = it
+				}
+			}
+			srcBytes, _ := os.ReadFile(filepath.Join(src, "f.bin"))
+			data := make([]byte, size)
+			copy(data[:have*chunk], srcBytes[:have*chunk])
+			os.WriteFile(filepath.Join(out, "f.bin"), data, 0o644)
+			sc, err := transfer.CreateSidecar(transfer.SidecarPath(out, "", transfer.VerifSidecarID(item)), item.ID, item.Size, chunk)
+			if err != nil {
+				res.AddDrift(map[string]any{"why": err.Error()})
+				continue
+			}
+			for k := uint32(0); k < have; k++ {
+				sc.MarkComplete(k)
+			}
+			sc.Flush()
+			cfg := xfer.Config{Transport: "mock", Conns: 1, Streams: 1, ChunkSize: chunk, Resume: true, NoRootDir: true, VerifyTail: tail, Seed: seed, Watchdog: 8 * time.Second,
+				Flip: &vnet.FlipSpec{Stream: 1, Dir: vnet.A, Part: "payload", Frame: frame, Offset: 3 + frame, Bit: 2}}
+			o, err := xfer.Run(cfg, src, out)
+			res.Behaviours++
+			res.Distinct++
+			if err != nil {
+				res.AddDrift(map[string]any{"why": err.Error()})
+				continue
+			}
+			replay := map[string]any{"scenario": "payload of a re-sent (already marked) chunk damaged in flight", "recorded_complete": have, "tail": tail, "damaged_frame": frame, "outcome": o}
+			before := len(res.Violations)
+			inspectDisk(res, src, out, m, chunk, replay)
+			switch {
+			case len(res.Violations) > before:
+				outcomes["damaged duplicate: metadata marks a chunk that is not in the file"]++
+			case o.SendOK && o.RecvOK && !o.TreeEqual:
+				outcomes["damaged duplicate: silent wrong tree"]++
+				res.AddViolation(map[string]any{"property": "C02", "kind": "receiver_reports_success_with_wrong_tree", "fault": "flip of a duplicate"}, replay)
+			case o.SendOK && o.RecvOK:
+				outcomes["damaged duplicate: not hit / repaired"]++
+			default:
+				outcomes["damaged duplicate: failed loudly, metadata sound"]++
+			}
+		}
 	}
 }
